@@ -4,5 +4,6 @@ CONSTANTS
   Entries = {"aa", "bb", "cc"}
   MaxCalls = 1000000
 CONSTRAINT Hwm
+VIEW TView
 INVARIANTS CurIsLastTrue ProcessedInOrder AtMostOncePerRequest ErrorMeansNo
 POSTCONDITION Accepted
